@@ -795,6 +795,7 @@ def run(ctx):
     known_probes(ctx)
     numeric_checks(ctx)
     greedy_checks(ctx)
+    aca3d_checks(ctx)
     ctx.extra['own_compute_s (after build/audit; excludes waiting for the shared lake lock)'] = round(_time.time() - _t_own, 1)
     ctx.assumptions += [
         'index lists are per-axis (orthogonal) selections as _normalize_indices defines them; with >=2 lists numpy pairs them instead (documented difference, not reported)',
@@ -1164,3 +1165,72 @@ def greedy_checks(ctx):
     ctx.obligation('correspondence stream greedy: %d gta / gta_ls runs, ranks == gtaExtend skip rule replayed on the recorded norms' % len(greq),
                    nd == 0, '%d disagreements' % nd)
     ctx.extra['greedy_cases (numerical evidence, time limit %gs per case)' % LIMIT] = ngta
+
+
+# ----------------------------------------------------------------------------------------- aca_3d
+def aca3d_checks(ctx):
+    """lowrank.aca_3d on exactly-rank-r 3-tensors (integer and float factors, every ordering of the mode sizes 1..5,
+    lr=False/True).  Oracle: the dense expansion reproduces the input to 1e-8*||A|| when r <= maxiter.  The random
+    restarts make early termination possible by design; `skipcount=200` makes that event negligible (the default
+    parameters are only counted as a statistic).  Exceptions on valid input and non-termination are violations."""
+    import traceback
+    from pyiga import tensor, lowrank
+    rng = np.random.default_rng(ctx.seed + 3000)
+    quick = ctx.tier == 'quick'
+    fixed = [((3, 2, 4), 1, False), ((3, 2, 4), 2, True), ((2, 3, 5), 2, True), ((3, 1, 2), 1, False), ((3, 3, 3), 2, False),
+             ((3, 4, 2), 2, True), ((5, 1, 1), 1, True), ((1, 1, 4), 1, False)]
+    cases = list(fixed)
+    for _ in range(160 if quick else 1600):
+        cases.append((tuple(int(rng.integers(1, 6)) for _ in range(3)), int(rng.integers(1, 4)), bool(rng.integers(0, 2))))
+    n = 0
+    for ci, (shape, r, lr) in enumerate(cases):
+        integer = bool(ci % 2 == 0)
+        A = np.zeros(shape)
+        for _ in range(r):
+            fs = [rng.choice([-2., -1., 1., 2.], size=m) if integer else rng.standard_normal(m) for m in shape]
+            A += np.einsum('i,j,k->ijk', *fs)
+        if not A.any():
+            continue
+        nA = float(np.linalg.norm(A.ravel()))
+        seed = int(rng.integers(0, 2 ** 31))
+        replay = {'function': 'aca_3d', 'A': A.tolist(), 'shape': list(shape), 'rank<=': r, 'lr': lr, 'tol': 1e-10, 'maxiter': 30,
+                  'skipcount': 200, 'np.random.seed': seed}
+        np.random.seed(seed)
+        tb = ['']
+
+        def call():
+            try:
+                return lowrank.aca_3d(A, tol=1e-10, maxiter=30, skipcount=200, tolcount=3, verbose=0, lr=lr)
+            except Exception:
+                tb[0] = traceback.format_exc()
+                raise
+        st, val = _with_time_limit(10.0, call)
+        ctx.case(('aca3d', shape, r, lr, ci), nontrivial=(r >= 2 and min(shape) >= 2))
+        ctx.count('aca_3d shape[2]>shape[1]' if shape[2] > shape[1] else 'aca_3d shape[2]<=shape[1]')
+        n += 1
+        if st == 'timeout':
+            ctx.violation('aca3d', 'aca_3d did not terminate within 10 s', replay, True); continue
+        if st == 'exc':
+            key = 'aca3d-index' if (isinstance(val, IndexError) and 'E_mat[I[1:]]' in tb[0]) else 'aca3d'
+            ctx.violation(key, 'aca_3d(lr=%s) on an exactly rank-%d tensor of shape %s raises %s: %s' % (lr, r, shape, type(val).__name__, str(val)[:80]),
+                          replay, True)
+            continue
+        D = np.asarray(tensor.asarray(val), dtype=float)
+        e = float(np.linalg.norm((D - A).ravel())) if D.shape == A.shape else float('inf')
+        if not e <= 1e-8 * nA:
+            ctx.violation('aca3d', 'aca_3d(lr=%s) does not reproduce an exactly rank-%d tensor of shape %s: error %.2e * ||A||' % (lr, r, shape, e / nA),
+                          replay, True)
+        # default parameters: early termination by unlucky restarts is possible by design -> statistic only
+        np.random.seed(seed)
+        st2, val2 = _with_time_limit(10.0, lambda: lowrank.aca_3d(A, tol=1e-10, maxiter=30, verbose=0, lr=lr))
+        if st2 == 'ok':
+            D2 = np.asarray(tensor.asarray(val2), dtype=float)
+            if not float(np.linalg.norm((D2 - A).ravel())) <= 1e-8 * nA:
+                ctx.count('aca_3d default skipcount=3: stopped early on an exact rank-r tensor (statistic)')
+    # malformed: not a 3-tensor
+    for B in (np.ones((2, 2)), np.ones((2, 2, 2, 2))):
+        st, val = _with_time_limit(10.0, lambda: lowrank.aca_3d(B, verbose=0))
+        if not (st == 'exc' and isinstance(val, AssertionError)):
+            ctx.violation('aca3d', 'aca_3d on a %d-dimensional array: expected AssertionError, got %s' % (B.ndim, st if st != 'exc' else type(val).__name__),
+                          {'shape': list(B.shape)}, False)
+    ctx.extra['aca3d_cases'] = n
